@@ -8,7 +8,7 @@ from .common import Verdict, MachineryError
 from .lawcheck import sc, S
 from .rng import ScriptedRNG, RecordingRNG
 
-UNIT = {"CC": 24.022, "CO": 28.010, "C(C)C": 36.033}
+UNIT = {"CC": 24.022, "CO": 28.010, "C(C)C": 36.033, "[13CH2][13CH2]": 26.00671, "C[18OH0]": 30.0102}   # heavy-atom masses; isotope labels count
 
 
 class Timeout(Exception):
@@ -21,11 +21,11 @@ def _alarm(s, f):
 
 def cases(tier):
     d = {
-        "gauss": [(150, 40), (60, 15)], "uniform": [(20, 200), (100, 130)], "schulz_zimm": [(260, 200), (150, 100)],
+        "gauss": [(150, 40), (60, 15), (30, 60)], "uniform": [(20, 200), (100, 130)], "schulz_zimm": [(260, 200), (150, 100)],
         "log_normal": [(120, 1.3), (80, 1.05)], "poisson": [(100,), (40,)], "flory_schulz": [(0.02,), (0.05,)],
     }
     if tier == "thorough":
-        d["gauss"] += [(400, 10), (30, 60)]
+        d["gauss"] += [(400, 10), (10, 100)]
         d["uniform"] += [(0, 50)]
         d["schulz_zimm"] += [(700, 650)]
         d["log_normal"] += [(300, 2.0)]
@@ -41,6 +41,9 @@ def cases(tier):
     for i, fam in enumerate(fams):
         other = fams[(i + 2) % len(fams)]
         out.append(("double", [(fam, d[fam][0], "CC"), (other, d[other][0], "CO")]))
+    # isotope-labelled units: the mass that counts is the mass of the atoms as written
+    out.append(("single", [("gauss", (300, 60), "[13CH2][13CH2]")]))
+    out.append(("double", [("uniform", (50, 400), "C[18OH0]"), ("log_normal", (200, 1.2), "[13CH2][13CH2]")]))
     out.append(("endstart", [("gauss", (120, 30), "C(C)C")]))
     out.append(("endstart", [("log_normal", (100, 1.2), "C(C)C")]))
     return out
